@@ -9,6 +9,12 @@ CHECKS = {
  "C03": dict(cat="model_checking", tech="TLA+ operational tree spec (TLC invariants over all behaviours) + trace validation of hook events of real chains against it",
    text="TLC checks the C03 inequalities, draw membership, stop exactness and maxdepth-flag rules on every behaviour of the operational tree spec for all small option combinations; every hook event and every API output of thousands of draws of real chains (3 NUTS presets, Euclidean/ExactNormal, depth/mindepth/extra/energy-limit/integration-time options, 9 densities, injected faults) must be explained line by line by the trace spec, which carries the identity (bit pattern hash) of the state selected as draw through every merge.",
    note="state identity by bit pattern hash; merge arithmetic, energy_error and gradient identity are harness-side predicates; interleavings not relevant (single chain)", ref="5/C03"),
+ "C06": dict(cat="model_checking", tech="TLA+ schedule state machine (TLC over all histories) + per-draw trace validation of the adapt() hook joined with Progress/stats",
+   text="TLC checks on AdaptSchedule, for all good/rejected histories and a family of scaled schedule constants, that tuning is reported exactly for draws < num_tune and that nothing changes the transformation from the final window on; every draw of real chains (six presets, num_tune 0..400, window fractions, frequencies, growth, jitter None/0/0.1, dual averaging/Adam/fixed) is one trace line that the trace spec must explain, including Progress.tuning, stats.tuning, transformation id, and the harness-side predicates 'averaged step size constant after warm-up' and 'step inside jitter band'.",
+   note="schedule constants read from the implementation; band/constancy predicates computed harness-side from bit patterns; flow presets use the harness's affine flow", ref="5/C06"),
+ "C09": dict(cat="model_checking", tech="TLA+ schedule state machine with estimator window bookkeeping; trace spec predicts counts/windows/switches/updates/re-search/routing from constants and good/rejected history",
+   text="AdaptSchedule models both estimators as (count, first admissible draw) with the switch history; TLC checks staleness (foreground only holds draws since the switch before last), switch rule (full window and room for another before the final window), window growth, single re-search and statistic routing over all histories; real chains' hook logs must match the predicted counts, window sizes, switch/update draws and routing on every draw.",
+   note="good/rejected for NUTS recomputed from draw index and divergence; for MCLMC inferred by TLC from logged counts", ref="5/C09"),
 }
 NOT_APPLICABLE = {
  "C19": "encode/decode fidelity of a plain data structure plus equality of two deterministic runs: no state machine, schedule, history or fault to specify in TLA+ (DESIGN.md 5/C19)",
